@@ -1,23 +1,24 @@
 /-!
-DRAFT (not part of the lake library; round 5 ran out of time): the text-level theorem
+DRAFT / PLAN (not part of the lake library): the text-level theorem
   `visitF (ofExpr e) = renderP (annotW realBr e)`  on operator trees.
-Finished and in the library: Lemmas/C08Text.lean — `trimLines_clean` (the per-line trimming of ppPostProcessing is the
-identity on clean ASCII text) and `post_clean` (ppPostProcessing is the identity for a comment-free, non-indented node).
-What is still needed, in this order:
- 1. `visit_bin` / `visit_pre`: one unfolding step of `visitFQ` for a node with two / one children whose name is none of
-    the special names — the probe below shows that `rw [visitFQ]; dsimp only [Node.children, Node.name, …];
-    simp only [List.zipIdx, List.mapM_cons, List.mapM_nil, bind, Except.bind, pure, Except.pure, hL, hR]; split` reaches
-    the template branch; then rewrite the key (`[some L, some R].length = 2`), `htm`, and use a fold lemma
-    `List.foldlM f acc pieces = .ok (acc ++ piecesText ps pieces)` for pieces that only contain text and `.inr 1/2`.
+Finished and in the library (Lemmas/C08Text.lean):
+  round 5: `trimLines_clean`, `post_clean`;
+  round 6: STEP 1 done — `foldlM_pieces`, `visit_bin`, `visit_pre` (one unfolding step of `visitFQ` per operator node);
+           STEP 3 done for the general statement with the printer's own flag (`bnOfNode_ofExpr`, `bracketRule_ofExpr`)
+           and, with the flag identified as `chainPure`, for a `times` parent (`chain_eq`, `bracketRule_times`);
+           `ofExpr`, `spine`, `times_div_names`.
+Still needed, in this order:
  2. `Clean (piecesText …)` from clean children and per-template facts (literal pieces ASCII without newline, last piece a
-    child) — decidable over the regenerated table.
- 3. `bracketRule (ofExpr p) (ofExpr c) i = realBr p.head c.head i (chainPure …)` under `shapeOk = true`: needs
-    `isProductChain (ofExpr c) b = chainPure realPowers realExc K b c` (induction on c; fuel 100000 ≥ depth as hypothesis).
- 4. the induction on `e` (atoms: hypothesis that the atom nodes print to clean texts and are never parenthesised).
+    child) — decidable over the regenerated table; then `post_clean` removes the `ppPostProcessing` in `visit_bin/pre`.
+ 3'. for a parent other than `times`: `genBr (.bin K) c i true = genBr (.bin K) c i false` for all heads of the table
+    (by `decide`; depends on the extracted rule) — then `bracketRule_ofExpr` gives annotW's decision for every parent,
+    because `chainPure … K …` and `isProductChain` may differ only there.
+ 4. the induction on `e` (atoms: hypothesis that the atom nodes print to clean texts, are never parenthesised and look
+    like identifiers to the rule = `hatom` of `bracketRule_ofExpr`; fuel ≥ depth).
 -/
 import Ecal.Lemmas.C08Text
 open Ecal.Lex Ecal.Print Ecal.Parse
-def specials : List String := ["funccall", "sink", "statements", "try", "except", "list", "map", "identifier", "params", "if"]
+-- `specials` is now Ecal.C08.TX.specials in the library
 -- probe: after these steps the goal is `match tmpl (if [some L, some R].length > 0 then … else name) with …`
 -- theorem visit_bin_probe … := by
 --   rw [visitFQ]
